@@ -30,3 +30,10 @@ CHECKS["C13"] = dict(
     text="Proved for arbitrary aggregator states/records: finalize_run verdict = documented verdict (complete iff both edges, missing edge named, missing/orphan nodes = sorted set differences against the expected set, verdict-relevant state untouched so finalising twice agrees); every _ingest_* sets exactly its flag/status on the addressed aggregate (created if absent), keeps the other lifecycle flag, the node table and all other runs/launches (frame conditions), links runs to launches; ingest dispatches each record type to its ingester; _expected_nodes/_coerce_int contracts; pairwise commutation and idempotence of the update functions on the abstract view. finalize_launch is covered only by the bounded tier.",
     note="Assumed: producer record shapes (ids/timestamps strings or absent), typed aggregate fields, distinct keys map to distinct aggregate objects, lift from pairwise commutation to permutations (List.Perm.foldl_eq'). The bounded tier (real traces x prefixes x seeded permutations) is exploration and is reported separately.",
     ref="DESIGN.md section 7 (C13)")
+FIX_COMMITS += ["30eaae6", "8a84054"]
+CHECKS["C02"] = dict(
+    level="proof",
+    technique="contract-based deductive verification of origin classification, the type gate and type-flow validation (loop invariant with a carried 'nearest typed predecessor'); the 300-line flow analysis loop only by a bounded inspect->validate->run tier (labelled bounded)",
+    text="Proved: inspect_origin reports exactly the channel the run-time resolution uses (config > live context key > default > required) with the producer index; _is_compatible = the run-time issubclass gate (TypeError-safe); _validate_data_flow_compatibility flags exactly the nodes whose arriving data type (output of the nearest preceding typed node, across any number of context-only nodes) is incompatible - for node lists of any length. build_pipeline_inspection (key-flow bookkeeping) is NOT proved: a bounded tier inspects, validates and executes generated pipelines with exactly the reported required keys (ordinary and falsy values) and checks flow soundness and the per-node created/suppressed facts.",
+    note="The bounded part is exploration. Node inspection objects are assumed pairwise distinct with their own error lists.",
+    ref="DESIGN.md section 7 (C02)")
